@@ -24,7 +24,8 @@
      recovered uniquely from the signed bytes.  Unforgeability of Schnorr is the
      content of the knowledge relation of TlsProofs.v, not of this file.
 
-   Three defects of the pinned code are kept as parameters ([fixes]):
+   Four defects of the pinned code are kept as parameters ([fixes]; fix_resume is
+   described at [resumes] below):
      fix_f09  : the dialler also requires the key decoded from the CN (the one the
                 signature is checked against) to be the key it dialled      (F09)
      fix_bind : the signed bytes also cover the certificate's TLS public key,
@@ -74,8 +75,8 @@ Inductive rawcert := RawOne (c : cert) | RawMany | RawJunk.
    handshake with *)
 Inductive hello := Hello (chain : list rawcert) (hskey : tkey).
 
-Record fixes := mkfixes { fix_f09 : bool; fix_bind : bool; fix_nokey : bool }.
-Definition pinned := mkfixes false false false.
+Record fixes := mkfixes { fix_f09 : bool; fix_bind : bool; fix_nokey : bool; fix_resume : bool }.
+Definition pinned := mkfixes false false false false.
 
 Inductive reason :=
 | RCount | RParse | RX509 | RExpected | RNoSig | RCnDecode | RBadSig | RNoCert | RTlsKey.
@@ -264,6 +265,57 @@ Definition link (fx : fixes) (lv : level) (r : role) (s : suite) (h : hello)
             end
         end
       else mkout false 0 [] false
+  end.
+
+(* ---------- TLS session resumption ------------------------------------------- *)
+
+(* crypto/tls resumes a session when the client offers a ticket the listener
+   issued (tickets are on unless SessionTicketsDisabled; the keys live in the
+   listener's tls.Config, i.e. in one incarnation of the router) and
+   ClientAuth = RequireAnyClientCert does not stand in the way.  A resumed
+   handshake carries no certificate and VerifyPeerCertificate is NOT called:
+   nothing is signed over the new nonce.  ConnectionState().PeerCertificates is
+   the certificate of the ORIGINAL handshake, which receiveServerIdentity then
+   reads.  Only the listening side: onet's own client config has no
+   ClientSessionCache and never offers a session.
+
+   A ticket = (certificate accepted in the earlier handshake, same incarnation
+   of the listener?).  fix_resume: SessionTicketsDisabled on onet's TLS config:
+   the offered session is ignored and a full handshake takes place. *)
+Definition ticket := option (cert * bool).
+
+Definition resumes (fx : fixes) (lv : level) (r : role) (t : ticket) : option cert :=
+  match lv, r, t with
+  | LTls, RAccept, Some (c0, true) => if fix_resume fx then None else Some c0
+  | _, _, _ => None
+  end.
+
+(* what the router does with an accepted inbound connection whose peer
+   certificate is c (the [Some c] branch of [link]; Tls proofs: link_accepted_conn) *)
+Definition accepted_conn (fx : fixes) (s : suite) (c : cert) (id : ident) (msgs : nat) : outcome :=
+  if nokey_crashes fx s c id then mkout true 0 [] true else
+  if router_accepts s c id then
+    match declared s c id with
+    | Some d => mkout true msgs (repeat d msgs) false
+    | None => mkout true 0 [] false
+    end
+  else mkout true 0 [] false.
+
+(* the link when the peer may offer a ticket; second component: was it a resumption *)
+Definition link_r (fx : fixes) (lv : level) (r : role) (s : suite) (t : ticket) (h : hello)
+           (id : ident) (msgs : nat) : outcome * bool :=
+  match resumes fx lv r t with
+  | Some c0 => (accepted_conn fx s c0 id msgs, true)
+  | None => (link fx lv r s h id msgs, false)
+  end.
+
+(* what the peer has effectively presented for the connection under observation:
+   on a resumption nothing but the ticket, i.e. the certificate (and the proof
+   over the EARLIER nonce) of the original handshake *)
+Definition effective (resumed : bool) (t : ticket) (h : hello) : hello :=
+  match resumed, t with
+  | true, Some (c0, _) => Hello [RawOne c0] (c_tlskey c0)
+  | _, _ => h
   end.
 
 (* ---------- the property, as a boolean checker over an OBSERVATION ---------- *)
